@@ -319,7 +319,8 @@ Exp(res, addr, extra) ==
      nchunks |-> Len(chunks'), live |-> DOMAIN blocks', ma |-> ma', x |-> extra,
      fails |-> fails',                                                       \* injected failures so far
      inaligned |-> \E i \in 1..Len(frames') : frames'[i].kind \in {"aligned", "saligned"},
-     inclaim |-> \E i \in 1..Len(frames') : frames'[i].kind = "claim"]
+     inclaim |-> \E i \in 1..Len(frames') : frames'[i].kind = "claim",
+     inprep |-> Len(frames') > 0 /\ frames'[Len(frames')].kind = "prep"]
 
 Step(a, args, exp) == hist' = Append(hist, [a |-> a, args |-> args, exp |-> exp]) /\ nops' = nops + 1
 
@@ -349,7 +350,7 @@ InitWith(c, k) ==
     /\ hist = <<[a |-> "ctor", args |-> k,
                  exp |-> [res |-> "ok", addr |-> 0, cur |-> cur, pos |-> IF cur = 0 THEN 0 ELSE chunks[cur].pos,
                           allocated |-> 0, count |-> StatCount(chunks, cur), nchunks |-> Len(chunks), live |-> {},
-                          ma |-> ma, x |-> NoX, fails |-> 0, inaligned |-> FALSE, inclaim |-> FALSE]]>>
+                          ma |-> ma, x |-> NoX, fails |-> 0, inaligned |-> FALSE, inclaim |-> FALSE, inprep |-> FALSE]]>>
 
 Init == \E c \in Cfgs : \E k \in Ctors : InitWith(c, k)
 
@@ -357,13 +358,15 @@ Init == \E c \in Cfgs : \E k \in Ctors : InitWith(c, k)
 (* Actions                                                                 *)
 (***************************************************************************)
 Active == ~dropped
+\* while an exclusive-borrow collection is being filled nothing else can touch the arena
+Free == ~(Len(frames) > 0 /\ frames[Len(frames)].kind = "prep")
 CanFail == fails < MaxFail
 WD(wrap) == wrap \in {"wd", "both"}       \* through WithoutDealloc
 WS(wrap) == wrap \in {"ws", "both"}       \* through WithoutShrink
 
 \* ---- allocate / allocate_zeroed -----------------------------------------------------------------
 Alloc(l, zeroed, fail) ==
-    /\ Active /\ Cardinality(LiveIds) < MaxBlocks
+    /\ Active /\ Free /\ Cardinality(LiveIds) < MaxBlocks
     /\ fail => (CanFail /\ NeedsBase(chunks, cur, l.sz, l.al, ma))
     /\ LET r == DoAlloc(chunks, cur, base, l.sz, l.al, ma, fail)
        IN /\ chunks' = r.chunks /\ cur' = r.cur /\ base' = r.base
@@ -379,7 +382,7 @@ Alloc(l, zeroed, fail) ==
 
 \* ---- deallocate ---------------------------------------------------------------------------------
 Dealloc(id, wrap) ==
-    /\ Active /\ id \in LiveIds
+    /\ Active /\ Free /\ id \in LiveIds
     /\ LET b == blocks[id]
            reclaims == ~WD(wrap) /\ cfg.dealloc /\ IsLast(chunks, cur, b.addr, b.sz)
        IN /\ chunks' = DoDealloc(chunks, cur, b.addr, b.sz, ma, WD(wrap))
@@ -392,7 +395,7 @@ Dealloc(id, wrap) ==
 
 \* ---- grow / grow_zeroed -------------------------------------------------------------------------
 Grow(id, l, zeroed, wrap, fail) ==
-    /\ Active /\ id \in LiveIds
+    /\ Active /\ Free /\ id \in LiveIds
     /\ LET b == blocks[id] IN
        /\ l.sz >= b.sz
        /\ fail => (CanFail /\ GrowNeedsBase(chunks, cur, b.addr, b.sz, l.sz, l.al, ma))
@@ -412,7 +415,7 @@ Grow(id, l, zeroed, wrap, fail) ==
 
 \* ---- shrink -------------------------------------------------------------------------------------
 Shrink(id, l, wrap, fail) ==
-    /\ Active /\ id \in LiveIds
+    /\ Active /\ Free /\ id \in LiveIds
     /\ LET b == blocks[id] IN
        /\ l.sz <= b.sz
        /\ fail => (CanFail /\ ShrinkNeedsBase(chunks, cur, b.addr, b.sz, l.sz, l.al, ma, WS(wrap)))
@@ -434,7 +437,7 @@ Shrink(id, l, wrap, fail) ==
 
 \* ---- reserve ------------------------------------------------------------------------------------
 Reserve(n, fail) ==
-    /\ Active
+    /\ Active /\ Free
     /\ fail => (CanFail /\ ReserveNeedsBase(chunks, cur, n))
     /\ LET r == DoReserve(chunks, cur, base, n, fail)
        IN /\ chunks' = r.chunks /\ cur' = r.cur /\ base' = r.base
@@ -445,7 +448,7 @@ Reserve(n, fail) ==
 
 \* ---- scopes -------------------------------------------------------------------------------------
 EnterFrame(kind) ==
-    /\ Active /\ Depth < MaxDepth
+    /\ Active /\ Free /\ Depth < MaxDepth
     /\ kind \in {"scope", "guard"}
     /\ frames' = Append(frames, [kind |-> kind, cp |-> Checkpoint, live |-> LiveIds, ma |-> ma, cps |-> cps])
     /\ cps' = <<>>
@@ -455,7 +458,7 @@ EnterFrame(kind) ==
 
 \* exit of a scoped() closure / drop of a scope guard; how \in {"return", "unwind"}
 ExitScope(how) ==
-    /\ Active /\ Depth > 0
+    /\ Active /\ Free /\ Depth > 0
     /\ LET f == frames[Depth] IN
        /\ f.kind \in {"scope", "guard"}
        /\ LET r == ResetToCp(chunks, f.cp)
@@ -472,7 +475,7 @@ ExitScope(how) ==
 
 \* BumpScopeGuard::reset : rewind but keep the frame open
 GuardReset ==
-    /\ Active /\ Depth > 0
+    /\ Active /\ Free /\ Depth > 0
     /\ LET f == frames[Depth] IN
        /\ f.kind = "guard"
        /\ LET r == ResetToCp(chunks, f.cp)
@@ -486,14 +489,14 @@ GuardReset ==
 
 \* ---- unsafe checkpoint API ----------------------------------------------------------------------
 TakeCheckpoint ==
-    /\ Active /\ Len(cps) < 2
+    /\ Active /\ Free /\ Len(cps) < 2
     /\ cps' = Append(cps, [chunk |-> cur, pos |-> IF cur = 0 THEN 0 ELSE chunks[cur].pos, live |-> LiveIds])
     /\ UNCHANGED <<cfg, base, chunks, cur, ma, frames, blocks, nextId, order, last, fails, dropped>>
     /\ Step("checkpoint", [k |-> Len(cps) + 1], Exp("ok", 0, NoX))
 
 \* reset_to(checkpoint k of the current frame): later checkpoints die
 ResetTo(k) ==
-    /\ Active /\ k \in 1..Len(cps)
+    /\ Active /\ Free /\ k \in 1..Len(cps)
     /\ LET cp == cps[k]
            r  == ResetToCp(chunks, cp)
        IN /\ chunks' = r.chunks /\ cur' = r.cur
@@ -506,7 +509,7 @@ ResetTo(k) ==
 
 \* ---- Bump::reset / reset_to_start (need &mut Bump: only outside every frame) ---------------------
 Reset ==
-    /\ Active /\ Depth = 0
+    /\ Active /\ Free /\ Depth = 0
     /\ IF cur = 0 THEN UNCHANGED <<chunks, cur, base>>
        ELSE LET n == Len(chunks)
                 lastc == chunks[n]
@@ -519,7 +522,7 @@ Reset ==
     /\ Step("reset", [none |-> TRUE], Exp("ok", 0, [kept |-> IF cur = 0 THEN 0 ELSE chunks[Len(chunks)].start]))
 
 ResetToStart ==
-    /\ Active /\ Depth = 0
+    /\ Active /\ Free /\ Depth = 0
     /\ IF cur = 0 THEN UNCHANGED <<chunks, cur>>
        ELSE /\ chunks' = [chunks EXCEPT ![1].pos = ResetPos(chunks[1])] /\ cur' = 1
     /\ blocks' = <<>> /\ cps' = <<>> /\ last' = 0 /\ order' = <<>>
@@ -528,21 +531,137 @@ ResetToStart ==
 
 \* ---- drop ---------------------------------------------------------------------------------------
 DropArena ==
-    /\ Active /\ Depth = 0
+    /\ Active /\ Free /\ Depth = 0
     /\ dropped' = TRUE
     /\ base' = [base EXCEPT !.grants = [i \in 1..Len(base.grants) |-> [base.grants[i] EXCEPT !.live = FALSE]]]
     /\ blocks' = <<>> /\ cps' = <<>> /\ last' = 0 /\ order' = <<>>
     /\ UNCHANGED <<cfg, chunks, cur, ma, frames, nextId, fails>>
     /\ Step("drop", [none |-> TRUE],
             [res |-> "ok", addr |-> 0, cur |-> 0, pos |-> 0, allocated |-> 0, count |-> 0,
-             nchunks |-> 0, live |-> {}, ma |-> ma, x |-> NoX, fails |-> fails, inaligned |-> FALSE, inclaim |-> FALSE])
+             nchunks |-> 0, live |-> {}, ma |-> ma, x |-> NoX, fails |-> fails, inaligned |-> FALSE, inclaim |-> FALSE, inprep |-> FALSE])
+
+\* ---- exclusive-borrow collections: prepare / fill / commit (MutBumpVec, MutBumpVecRev, *_mut helpers) ------------
+\* prepare_allocation_range: the largest sub-range of the free space whose ends are multiples of the element alignment;
+\* the position does not move.  Slow path as for allocations (later chunks are reset and become current; a chunk is
+\* appended for (cap * esz, eal)).
+PFits(c, sz, al) == IF cfg.up THEN B!PrepFits(c.pos, c.hi, sz, al) ELSE B!PrepFits(c.lo, c.pos, sz, al)
+PLo(c, al) == IF cfg.up THEN B!PrepLo(c.pos, al) ELSE B!PrepLo(c.lo, al)
+PHi(c, al) == IF cfg.up THEN B!PrepHi(c.hi, al) ELSE B!PrepHi(c.pos, al)
+
+RECURSIVE WalkPrep(_, _, _, _)
+WalkPrep(chs, i, sz, al) ==
+    IF i > Len(chs) THEN [found |-> FALSE, chunks |-> chs, cur |-> Len(chs)]
+    ELSE LET c1   == [chs[i] EXCEPT !.pos = ResetPos(chs[i])]
+             chs1 == [chs EXCEPT ![i] = c1]
+         IN IF PFits(c1, sz, al) THEN [found |-> TRUE, cur |-> i, chunks |-> chs1]
+            ELSE WalkPrep(chs1, i + 1, sz, al)
+
+\* returns [ok, chunks, cur, base, lo, hi]
+DoPrep(chs, c, b, sz, al, fail) ==
+    IF c # 0 /\ PFits(chs[c], sz, al)
+    THEN [ok |-> TRUE, chunks |-> chs, cur |-> c, base |-> b, lo |-> PLo(chs[c], al), hi |-> PHi(chs[c], al)]
+    ELSE IF c = 0
+    THEN LET req == CS!FromCapacity(CC, cfg.mcs, sz, al)
+         IN IF req = CS!NoneV \/ ~CS!LayoutOk(CC, req) \/ fail
+            THEN [ok |-> FALSE, chunks |-> chs, cur |-> c, base |-> b, lo |-> 0, hi |-> 0]
+            ELSE LET mk == MkChunk(b, req)
+                 IN [ok |-> TRUE, chunks |-> <<mk.c>>, cur |-> 1, base |-> mk.b, lo |-> PLo(mk.c, al), hi |-> PHi(mk.c, al)]
+    ELSE LET w == WalkPrep(chs, c + 1, sz, al)
+         IN IF w.found
+            THEN [ok |-> TRUE, chunks |-> w.chunks, cur |-> w.cur, base |-> b,
+                  lo |-> PLo(w.chunks[w.cur], al), hi |-> PHi(w.chunks[w.cur], al)]
+            ELSE LET lastc == w.chunks[Len(w.chunks)]
+                     req   == CS!AppendSize(CC, cfg.mcs, lastc.size, sz, al)
+                 IN IF req = CS!NoneV \/ ~CS!LayoutOk(CC, req) \/ fail
+                    THEN [ok |-> FALSE, chunks |-> w.chunks, cur |-> w.cur, base |-> b, lo |-> 0, hi |-> 0]
+                    ELSE LET mk == MkChunk(b, req)
+                         IN [ok |-> TRUE, chunks |-> Append(w.chunks, mk.c), cur |-> Len(w.chunks) + 1, base |-> mk.b,
+                             lo |-> PLo(mk.c, al), hi |-> PHi(mk.c, al)]
+
+PrepNeedsBase(chs, c, sz, al) ==
+    ~(c # 0 /\ PFits(chs[c], sz, al)) /\ (c = 0 \/ ~WalkPrep(chs, c + 1, sz, al).found)
+
+MinNonZeroCap(esz) == IF esz = 1 THEN 8 ELSE IF esz <= 1024 THEN 4 ELSE 1
+
+InPrep == Depth > 0 /\ frames[Depth].kind = "prep"
+
+\* a collection is created with capacity `c0` (0 = `new_in`: nothing is prepared until the first push)
+\* e = [sz, al] element layout (sz a positive multiple of al); rev = MutBumpVecRev
+EnterPrep(e, rev, c0, fail) ==
+    /\ Active /\ Free /\ Depth < MaxDepth /\ e.sz > 0 /\ e.sz % e.al = 0
+    /\ fail => (CanFail /\ c0 > 0 /\ PrepNeedsBase(chunks, cur, c0 * e.sz, e.al))
+    /\ LET r == IF c0 = 0 THEN [ok |-> TRUE, chunks |-> chunks, cur |-> cur, base |-> base, lo |-> 0, hi |-> 0]
+                ELSE DoPrep(chunks, cur, base, c0 * e.sz, e.al, fail)
+           cap == IF c0 = 0 \/ ~r.ok THEN 0 ELSE (r.hi - r.lo) \div e.sz
+       IN /\ chunks' = r.chunks /\ cur' = r.cur /\ base' = r.base
+          /\ frames' = Append(frames, [kind |-> "prep", cp |-> Checkpoint, live |-> LiveIds, ma |-> ma, cps |-> cps,
+                                        esz |-> e.sz, eal |-> e.al, rev |-> rev, lo |-> r.lo, hi |-> r.hi, cap |-> cap, len |-> 0,
+                                        failed |-> ~r.ok])
+          /\ cps' = <<>> /\ last' = 0
+          /\ fails' = IF fail THEN fails + 1 ELSE fails
+          /\ UNCHANGED <<cfg, ma, blocks, nextId, order, dropped>>
+          /\ Step("enter", [kind |-> "prep", esz |-> e.sz, eal |-> e.al, rev |-> rev, cap |-> c0, fail |-> fail],
+                  Exp(IF r.ok THEN "ok" ELSE "err", 0, [cap |-> cap, lo |-> r.lo, hi |-> r.hi, newchunk |-> Len(r.chunks) > Len(chunks)]))
+
+\* push one element; grows (re-prepares max(2 cap, len + 1, min_non_zero_cap) elements and copies) when full
+PrepPush(fail) ==
+    /\ Active /\ InPrep /\ ~frames[Depth].failed
+    /\ LET f == frames[Depth]
+           grows == f.len = f.cap
+           ncap  == Max(Max(2 * f.cap, f.len + 1), MinNonZeroCap(f.esz))
+       IN /\ f.len < 12
+          /\ fail => (CanFail /\ grows /\ PrepNeedsBase(chunks, cur, ncap * f.esz, f.eal))
+          /\ LET r == IF grows THEN DoPrep(chunks, cur, base, ncap * f.esz, f.eal, fail)
+                       ELSE [ok |-> TRUE, chunks |-> chunks, cur |-> cur, base |-> base, lo |-> f.lo, hi |-> f.hi]
+                 cap2 == IF r.ok THEN (r.hi - r.lo) \div f.esz ELSE f.cap
+             IN /\ chunks' = r.chunks /\ cur' = r.cur /\ base' = r.base
+                /\ frames' = [frames EXCEPT ![Depth] = IF r.ok THEN [f EXCEPT !.lo = r.lo, !.hi = r.hi, !.cap = cap2, !.len = f.len + 1]
+                                                         ELSE f]
+                /\ fails' = IF fail THEN fails + 1 ELSE fails
+                /\ UNCHANGED <<cfg, ma, blocks, cps, nextId, order, last, dropped>>
+                /\ Step("prep_push", [fail |-> fail, grows |-> grows, ncap |-> ncap],
+                        Exp(IF r.ok THEN "ok" ELSE "err", 0,
+                            [cap |-> cap2, lo |-> r.lo, hi |-> r.hi, len |-> IF r.ok THEN f.len + 1 ELSE f.len,
+                             newchunk |-> Len(r.chunks) > Len(chunks)]))
+
+\* into_slice / into_boxed_slice: the elements are moved to the bump side of the prepared range, the position is set
+\* just past them (aligned to the minimum alignment only if the element alignment is smaller)
+PrepCommit ==
+    /\ Active /\ InPrep
+    /\ LET f == frames[Depth]
+           n == f.len * f.esz
+           touched == f.cap > 0
+           addr == IF ~touched THEN 0 ELSE IF cfg.up THEN f.lo ELSE f.hi - n
+           npos == IF cfg.up THEN (IF f.eal < ma THEN UpAlign(f.lo + n, ma) ELSE f.lo + n)
+                             ELSE (IF f.eal < ma THEN DownAlign(f.hi - n, ma) ELSE f.hi - n)
+       IN /\ chunks' = IF touched THEN [chunks EXCEPT ![cur].pos = npos] ELSE chunks
+          /\ blocks' = IF touched /\ n > 0
+                       THEN [i \in LiveIds \cup {nextId} |-> IF i = nextId THEN [addr |-> addr, sz |-> n, al |-> f.eal] ELSE blocks[i]]
+                       ELSE blocks
+          /\ nextId' = IF touched /\ n > 0 THEN nextId + 1 ELSE nextId
+          /\ order' = IF touched /\ n > 0 THEN Append(order, nextId) ELSE order
+          /\ last' = 0
+          /\ frames' = SubSeq(frames, 1, Depth - 1)
+          /\ cps' = f.cps
+          /\ UNCHANGED <<cfg, base, cur, ma, fails, dropped>>
+          /\ Step("prep_commit", [id |-> IF touched /\ n > 0 THEN nextId ELSE 0],
+                  Exp("ok", addr, [len |-> f.len, esz |-> f.esz, eal |-> f.eal, rev |-> f.rev, touched |-> touched]))
+
+\* the collection is dropped (or unwound) without being finalised: nothing changes
+PrepDrop(how) ==
+    /\ Active /\ InPrep
+    /\ frames' = SubSeq(frames, 1, Depth - 1)
+    /\ cps' = frames[Depth].cps
+    /\ last' = 0
+    /\ UNCHANGED <<cfg, base, chunks, cur, ma, blocks, nextId, order, fails, dropped>>
+    /\ Step("prep_drop", [how |-> how], Exp("ok", 0, NoX))
 
 \* ---- requests whose size computation overflows (a layout close to isize::MAX) -----------------------
 \* The fast path fails, the slow path walks the later chunks (resetting them and moving the current chunk forward)
 \* and then fails to compute a chunk size: capacity overflow, reported as an error; the base allocator is not called.
 HugeSz == 1073741824    \* stands for isize::MAX - 64 in the replayer
 AllocHuge(al) ==
-    /\ Active
+    /\ Active /\ Free
     /\ LET r == DoAlloc(chunks, cur, base, HugeSz, al, ma, TRUE)
        IN /\ ~r.ok
           /\ chunks' = r.chunks /\ cur' = r.cur
@@ -553,7 +672,7 @@ AllocHuge(al) ==
 \* ---- deallocate the most recent allocation and request the same layout again (C13) -------------------
 \* two steps of the replayer: "dealloc" then "alloc" with reuse = TRUE (the replayer reports the freed address)
 Realloc(id, wrap) ==
-    /\ Active /\ id \in LiveIds
+    /\ Active /\ Free /\ id \in LiveIds
     /\ LET b    == blocks[id]
            chs1 == DoDealloc(chunks, cur, b.addr, b.sz, ma, WD(wrap))
            r    == DoAlloc(chs1, cur, base, b.sz, b.al, ma, FALSE)
@@ -571,7 +690,7 @@ Realloc(id, wrap) ==
                           allocated |-> StatAllocated(chs1, cur), count |-> StatCount(chs1, cur), nchunks |-> Len(chs1),
                           live |-> LiveIds \ {id}, ma |-> ma, fails |-> fails,
                           inaligned |-> \E i \in 1..Len(frames) : frames[i].kind \in {"aligned", "saligned"},
-                          inclaim |-> \E i \in 1..Len(frames) : frames[i].kind = "claim",
+                          inclaim |-> \E i \in 1..Len(frames) : frames[i].kind = "claim", inprep |-> FALSE,
                           x |-> [waslast |-> last = id, wastop |-> Top(order) = id,
                                  reclaim |-> ~WD(wrap) /\ cfg.dealloc /\ IsLast(chunks, cur, b.addr, b.sz),
                                  optout |-> WD(wrap) \/ ~cfg.dealloc]]],
@@ -583,7 +702,7 @@ Realloc(id, wrap) ==
 \* ---- claim --------------------------------------------------------------------------------------------
 \* The guard (claimant) takes over the chunk pointer; the claimed handle is inert until the guard is dropped.
 EnterClaim ==
-    /\ Active /\ Depth < MaxDepth
+    /\ Active /\ Free /\ Depth < MaxDepth
     /\ frames' = Append(frames, [kind |-> "claim", cp |-> Checkpoint, live |-> LiveIds, ma |-> ma, cps |-> cps])
     /\ cps' = <<>>
     /\ last' = 0
@@ -592,7 +711,7 @@ EnterClaim ==
 
 \* guard dropped (normally or by unwinding): the claimed handle continues exactly where the guard stopped
 ExitClaim(how) ==
-    /\ Active /\ Depth > 0 /\ frames[Depth].kind = "claim"
+    /\ Active /\ Free /\ Depth > 0 /\ frames[Depth].kind = "claim"
     /\ frames' = SubSeq(frames, 1, Depth - 1)
     /\ cps' = frames[Depth].cps
     /\ last' = 0
@@ -604,7 +723,7 @@ ClaimLevels == {i \in 1..Len(frames) : frames[i].kind = "claim"}
 \* an operation through a handle that is currently claimed (lvl = which claim frame, counted from the outermost frame)
 \* op \in {"alloc", "reserve", "grow", "dealloc", "shrink", "stats", "claim"}
 ClaimedOp(lvl, op, id, l) ==
-    /\ Active /\ lvl \in ClaimLevels
+    /\ Active /\ Free /\ lvl \in ClaimLevels
     /\ op \in {"grow", "dealloc", "shrink"} => id \in LiveIds
     /\ op = "grow" => l.sz >= blocks[id].sz
     /\ op = "shrink" => l.sz <= blocks[id].sz
@@ -626,7 +745,7 @@ ClaimedOp(lvl, op, id, l) ==
 
 \* ---- aligned / scoped_aligned ---------------------------------------------------------------------------
 EnterAligned(n, scoped) ==
-    /\ Active /\ Depth < MaxDepth /\ n \in {1, 2, 4, 8, 16} /\ n # ma
+    /\ Active /\ Free /\ Depth < MaxDepth /\ n \in {1, 2, 4, 8, 16} /\ n # ma
     /\ frames' = Append(frames, [kind |-> IF scoped THEN "saligned" ELSE "aligned", cp |-> Checkpoint, live |-> LiveIds,
                                   ma |-> ma, cps |-> cps])
     /\ cps' = <<>>
@@ -638,7 +757,7 @@ EnterAligned(n, scoped) ==
     /\ Step("enter", [kind |-> IF scoped THEN "saligned" ELSE "aligned", n |-> n], Exp("ok", 0, NoX))
 
 ExitAligned(how) ==
-    /\ Active /\ Depth > 0
+    /\ Active /\ Free /\ Depth > 0
     /\ LET f == frames[Depth] IN
        /\ f.kind \in {"aligned", "saligned"}
        /\ IF f.kind = "saligned"
